@@ -178,6 +178,10 @@ def gen_password(rng):
     blanks, tabs and newlines are part of the alphabet (the CLI must hand them to the library unchanged)."""
     core_ = "".join(rng.choice(PW_ALPHABET) for _ in range(rng.randint(10, 18))).strip() or "pässwörd-0123"
     x = rng.random()
+    if x > 0.88:
+        # short passwords whose text also occurs inside public data (paths, addresses, keys): a filter or a
+        # "redaction" that works on substrings must not touch those
+        return rng.choice(["1", "0", "a", "02", "03", "bc1q", "tb1q", "m/", "44'", "xpub", "'", "/0/", "e", "pub"])
     if x < 0.15:
         return core_ + rng.choice([" ", "  ", "\t", "\n"])
     if x < 0.30:
@@ -213,6 +217,12 @@ def gen_plan(prop, seed, tier, idx):
     # ---- global options
     command = rng.choice(["new", "from-master-xprv", "from-mnemonic", "from-bip39-seed", "from-entropy-hex"])
     use_file = rng.random() < (0.9 if batch in ("race",) else 0.45)
+    if batch == "io":
+        fam = IO_FAULTS[(idx // 4) % len(IO_FAULTS)]
+        if fam in ("ENOSPC", "EIO_write", "EIO_close", "EMFILE_open", "EACCES_open"):
+            use_file = True
+        elif fam in ("EPIPE_stdout", "EIO_stdout", "EPIPE_flush"):
+            use_file = False
     fstate = None
     if use_file:
         if only_valid:
@@ -283,7 +293,7 @@ def gen_plan(prop, seed, tier, idx):
         elif where == "sub":
             argv += [command, rng.choice(["-h", "--help"])]
         req["command"] = None if where != "sub" else command
-        return _finish(prop, seed, batch, req, argv, invalid, rng)
+        return _finish(prop, seed, batch, req, argv, invalid, rng, idx)
     # ---- sub command
     ok_secret = only_valid or rng.random() < 0.7
     secret, frag, valid_secret = gen_secret(rng, command, ok_secret, words)
@@ -301,7 +311,7 @@ def gen_plan(prop, seed, tier, idx):
     if not only_valid and rng.random() < 0.04:
         argv.append("--bogus-option")
         invalid.append("bogus-option")
-    return _finish(prop, seed, batch, req, argv, invalid, rng)
+    return _finish(prop, seed, batch, req, argv, invalid, rng, idx)
 
 
 LONG_OPTS = {"--testnet": 0, "--paranoia": 0, "--account": 1, "--interval": 2, "--file": 1, "--password": 1,
@@ -343,17 +353,18 @@ def respell(argv, rng):
     return out, done
 
 
-def _finish(prop, seed, batch, req, argv, invalid, rng):
+def _finish(prop, seed, batch, req, argv, invalid, rng, idx=0):
     if rng.random() < 0.5:
         argv, spell = respell(argv, rng)
         req = dict(req, respelled=spell)
     faults = []
+    k = idx // 4                     # position inside the batch: the fault matrix is walked systematically
     if batch == "race":
-        faults.append({"kind": "race", "gap": rng.randrange(0, 9), "action": rng.choice(RACE_ACTIONS)})
+        faults.append({"kind": "race", "gap": (k // len(RACE_ACTIONS)) % 9, "action": RACE_ACTIONS[k % len(RACE_ACTIONS)]})
         if rng.random() < 0.2:
             faults.append({"kind": "race", "gap": rng.randrange(0, 9), "action": rng.choice(RACE_ACTIONS)})
     elif batch == "io":
-        f = rng.choice(IO_FAULTS)
+        f = IO_FAULTS[k % len(IO_FAULTS)]
         if req.get("file_state") is None and f in ("ENOSPC", "EIO_write", "EIO_close", "EMFILE_open", "EACCES_open"):
             f = rng.choice(["EPIPE_stdout", "EPIPE_stdout", "EIO_stdout", "EPIPE_flush", "interrupt", "crash"])
         if req.get("file_state") is not None and f in ("EPIPE_stdout", "EIO_stdout", "EPIPE_flush"):
@@ -817,6 +828,10 @@ def _run_child(plan):
     else:  # C15
         if req["paranoia"] and twin is not None:
             strings, scalars = cm.secrets_of(twin["full"], {w: i for i, w in enumerate(words)})
+            # a secret STRING that also occurs in the reference public output by coincidence (a password like "1")
+            # cannot be judged by substring search; its absence is still enforced by the white-list equality below
+            pub_text = json.dumps(cm.ref_paranoia_filter(twin["full"]))
+            strings = {k_: v_ for k_, v_ in strings.items() if v_ not in pub_text and json.dumps(v_)[1:-1] not in pub_text}
             channels = [("stdout", out)] + [("file:" + p, d.decode("utf-8", "replace")) for p, d in sorted(new_files.items())]
             # stderr: always for served runs; for failed runs only when every argument was valid (the failure is
             # an injected I/O fault / race, so no legitimate message can be echoing the user's own input)
